@@ -183,7 +183,7 @@ package genetics
 //@   ensures [speciesMemKept] forall b :: wasAllocated(b) && b != old(base(pop.Species)) ==> Mem[*Species][b] == old(Mem[*Species][b])
 //@ func (*Population).speciate
 //@   props C08
-//@   abstracts select
+//@   select_done gCancelled
 //@   requires p != nil && neat.ErrNEATOptionsNotFound != nil
 //@   requires forall i :: 0 <= i && i < len(organisms) ==> organisms[i] != nil && organisms[i].Genotype != nil && nonNilGenes(organisms[i].Genotype.Genes)
 //@   requires speciesOrgsWF(p)
@@ -647,7 +647,7 @@ package genetics
 //@ func (*Species).reproduce
 //@   props C10 C02
 //@   mode nosafety
-//@   abstracts select
+//@   select_done gCancelled
 //@   assume_pre duplicate, mutateAddNode, mutateAddLink, mutateConnectSensors, mutateLinkWeights, mateMultipoint, mateMultipointAvg, mateSinglePoint, compatibility, Int31n
 //@   requires s != nil && pop != nil && len(s.Organisms) > 0 && (forall i :: 0 <= i && i < len(s.Organisms) ==> s.Organisms[i] != nil && s.Organisms[i].Genotype != nil)
 //@   requires [quotaCoversSuperChamp] 0 <= s.Organisms[0].superChampOffspring && s.Organisms[0].superChampOffspring <= s.ExpectedOffspring
@@ -764,6 +764,7 @@ package genetics
 //@   assume_pre Intn
 //@   assert [novelNumber] !innovationFound ==> sel(gIssued, arg1.InnovationNum) && !sel(old(gIssued), arg1.InnovationNum) @ before 1 geneInsert
 //@   assert [matchedNumber] innovationFound ==> arg1.InnovationNum == inn.InnovationNum && inn.InNodeId == node1.Id && inn.OutNodeId == node2.Id && inn.IsRecurrent == doRecur @ before 1 geneInsert
+//@   assert [recorded] arg1.innovationType == newLinkInnType && arg1.InNodeId == node1.Id && arg1.OutNodeId == node2.Id && arg1.IsRecurrent == doRecur @ before 1 StoreInnovation
 //@   assert [newGene] arg1 != nil && fresh(arg1) && arg1.Link.InNode == node1 && arg1.Link.OutNode == node2 && arg1.Link.IsRecurrent == doRecur && arg1.IsEnabled @ before 1 geneInsert
 //@   requires genomeShape(g) && !isNilIface(innovations) && opts != nil
 //@   requires [nonModular] endpointsInNodes(g) && len(g.ControlGenes) == 0
@@ -912,6 +913,7 @@ package genetics
 //@   assume_pre Intn
 //@   requires genomeShape(g) && !isNilIface(innovations)
 //@   set gTheSensor = disconnectedSensors[result] @ after 1 Intn
+//@   assert [recorded] arg1.innovationType == newLinkInnType && arg1.OutNodeId == output.Id && !arg1.IsRecurrent @ before 1 StoreInnovation
 //@   assert [fromTheSensor] arg1 != nil && fresh(arg1) && arg1.Link.InNode == gTheSensor && arg1.Link.OutNode == output && !sensorNode(output) && !arg1.Link.IsRecurrent && arg1.IsEnabled @ before 1 geneInsert
 //@   assert [novelNumber] !innovationFound ==> sel(gIssued, arg1.InnovationNum) && !sel(old(gIssued), arg1.InnovationNum) @ before 1 geneInsert
 //@   assert [matchedNumber] innovationFound ==> arg1.InnovationNum == inn.InnovationNum && inn.InNodeId == arg1.Link.InNode.Id && inn.OutNodeId == output.Id && !inn.IsRecurrent @ before 1 geneInsert
